@@ -38,6 +38,7 @@ def parse_args(prop, argv=None):
     ap.add_argument("--no-evidence", action="store_true")
     ap.add_argument("--workers", type=int, default=int(os.environ.get("VERIF_WORKERS", "16")))
     ap.add_argument("--dump-specs", action="store_true", help=argparse.SUPPRESS)
+    ap.add_argument("--admitted", default=None, help=argparse.SUPPRESS)
     return ap.parse_args(argv)
 
 
@@ -84,7 +85,20 @@ class GEngine(object):
         poisons = pool.poison_jobs(self.seeds, cfg["poison"], corpus)
         return allj, poisons
 
+    def admit_from_file(self, path):
+        """Generator self-test mode: admission results are handed over, nothing is executed."""
+        with open(path) as fp:
+            adm = json.load(fp)
+        allj, poisons = self.build_pool()
+        self.jobs = {j.id: j for j in allj + poisons}
+        self.targets = adm["targets"]
+        self.poisons = adm["poisons"]
+        self.api_ok = adm["api_ok"]
+        self.goldens = {jid: {"trace": {"nops": n}} for jid, n in adm["nops"].items()}
+
     def admit(self):
+        if self.args.admitted:
+            return self.admit_from_file(self.args.admitted)
         allj, poisons = self.build_pool()
         G = campaign.compute_goldens(allj + poisons, self.seeds, workers=self.args.workers)
         admitted, rejected = 0, 0
@@ -209,9 +223,13 @@ class GEngine(object):
         self.selftest["determinism_histories"] = n
         self.selftest["determinism_mismatches"] = len(mism)
         # the generator must not depend on the driver's own hash order
+        adm = os.path.join(campaign.scratch_dir(), "admitted.json")
+        with open(adm, "w") as fp:
+            json.dump({"targets": self.targets, "poisons": self.poisons, "api_ok": self.api_ok,
+                       "nops": {jid: g["trace"]["nops"] for jid, g in self.goldens.items()}}, fp)
         cmd = [sys.executable, os.path.join(report.VERIF, "sim", "cli.py"), self.prop,
                "--tier", self.tier, "--seed", str(self.args.seed), "--dump-specs",
-               "--rounds", "1", "--per-round", "40", "--no-evidence"]
+               "--rounds", "2", "--per-round", "60", "--no-evidence", "--admitted", adm]
         outs = []
         for hs in ("0", "4242"):
             e = dict(os.environ, PYTHONHASHSEED=hs)
